@@ -46,6 +46,7 @@ const (
 	retOutPair  // (int64, int64, error)
 	retErrBool  // (error, bool) → Bool
 	retTuple    // (int64, …, int64)
+	retErrOnly  // error → Bool ("an error is returned")
 )
 
 type fnInfo struct {
@@ -98,6 +99,8 @@ func (t *translator) resultKind(fn *ast.FuncDecl) (fnInfo, bool) {
 		return fnInfo{retInt, 1}, true
 	case len(types) == 1 && types[0] == "bool":
 		return fnInfo{retBool, 1}, true
+	case len(types) == 1 && types[0] == "error":
+		return fnInfo{retErrOnly, 1}, true
 	case len(types) == 2 && types[0] == "int64" && types[1] == "error":
 		return fnInfo{retOutInt, 1}, true
 	case len(types) == 3 && types[0] == "int64" && types[1] == "int64" && types[2] == "error":
@@ -114,7 +117,7 @@ func leanRet(k fnInfo) string {
 	switch k.kind {
 	case retInt:
 		return "Int"
-	case retBool, retErrBool:
+	case retBool, retErrBool, retErrOnly:
 		return "Bool"
 	case retOutInt:
 		return "Outcome Int"
@@ -304,6 +307,11 @@ func (t *translator) returnStmt(r *ast.ReturnStmt, ind string) string {
 		return ind + "return decide " + t.propExpr(res[0]) + "\n"
 	case retErrBool:
 		return ind + "return decide " + t.propExpr(res[1]) + "\n"
+	case retErrOnly:
+		if exprStr(res[0]) == "nil" {
+			return ind + "return false\n"
+		}
+		return ind + "return true\n"
 	case retOutInt:
 		if exprStr(res[1]) == "nil" {
 			return ind + "return .ok " + t.intExpr(res[0]) + "\n"
@@ -321,6 +329,11 @@ func (t *translator) returnStmt(r *ast.ReturnStmt, ind string) string {
 		}
 		return ind + "return (" + strings.Join(parts, ", ") + ")\n"
 	}
+}
+
+// errBody: the body of `if err != nil { … }`; inside it, returning `err` is returning an error
+func (t *translator) errBody(stmts []ast.Stmt, errName string, ind string, declared map[string]bool) string {
+	return t.block(stmts, ind, declared)
 }
 
 func (t *translator) block(stmts []ast.Stmt, ind string, declared map[string]bool) string {
@@ -479,6 +492,28 @@ func (t *translator) block(stmts []ast.Stmt, ind string, declared map[string]boo
 							}
 							sb.WriteString(ind + "if ¬ (Gen." + name + " " + strings.Join(args, " ") + " = true) then\n")
 							sb.WriteString(t.block(v.Body.List, ind+"  ", declared))
+							continue
+						}
+					}
+				}
+				// `if err := f(…); err != nil { … }` where f returns only an error (translated to "an error is returned")
+				if ok && len(as.Lhs) == 1 && len(as.Rhs) == 1 {
+					if call, isCall := as.Rhs[0].(*ast.CallExpr); isCall {
+						name := exprStr(call.Fun)
+						if k := strings.LastIndex(name, "."); k >= 0 {
+							name = name[k+1:]
+						}
+						if info, known := t.fns[name]; known && info.kind == retErrOnly && exprStr(v.Cond) == exprStr(as.Lhs[0])+" != nil" && v.Else == nil {
+							args := make([]string, len(call.Args))
+							for k, a := range call.Args {
+								if id, isId := a.(*ast.Ident); isId && (id.Name == "true" || id.Name == "false") {
+									args[k] = id.Name
+								} else {
+									args[k] = t.intExpr(a)
+								}
+							}
+							sb.WriteString(ind + "if (Gen." + name + " " + strings.Join(args, " ") + " = true) then\n")
+							sb.WriteString(t.errBody(v.Body.List, exprStr(as.Lhs[0]), ind+"  ", declared))
 							continue
 						}
 					}
